@@ -124,6 +124,20 @@ pub fn generate(rng: &mut Rng, thorough: bool) -> Vec<String> {
             }
         }
     }
+    // (5) Duration::round at the limit of the time duration (2^53 s): rounding away from zero there has no multiple
+    // to land on - a RangeError, never a clamped value
+    {
+        let lim: i128 = 9_007_199_254_740_991;
+        for m in MODES {
+            for (secs, ns) in [(lim, 999_999_999i128), (lim, 500_000_000), (lim, 1), (lim, 0), (lim - 1, 999_999_999), (lim - 59, 999_999_999), (lim - 3599, 500_000_000)] {
+                for sign in [1i128, -1] {
+                    for (u, inc) in [("second", 1), ("second", 2), ("minute", 1), ("hour", 1), ("millisecond", 1), ("microsecond", 1)] {
+                        v.push(format!("du_round 0 0 0 0 0 0 {} 0 0 {} - {u} {inc} {m}", sign * secs, sign * ns));
+                    }
+                }
+            }
+        }
+    }
     v
 }
 
